@@ -1766,6 +1766,7 @@ pub(crate) async fn setup_redirect(
                     } else {
                         false
                     };
+                    let mut fd_to_close = if dash { Some(fd_num) } else { None };
 
                     if expanded.is_empty() {
                         // Nothing to do
@@ -1774,12 +1775,24 @@ pub(crate) async fn setup_redirect(
                             .parse::<ShellFd>()
                             .map_err(|_| error::ErrorKind::InvalidRedirection)?;
 
-                        // Reference the same open file as the source fd (shared handle; no OS-level duplication).
-                        let Some(target_file) = params.try_fd(shell, source_fd_num) else {
-                            return Err(error::ErrorKind::BadFileDescriptor(source_fd_num).into());
-                        };
+                        // Duplicating a descriptor onto itself does nothing (open or not).
+                        if source_fd_num != fd_num {
+                            // Reference the same open file as the source fd (shared handle; no OS-level duplication).
+                            let Some(target_file) = params.try_fd(shell, source_fd_num) else {
+                                return Err(
+                                    error::ErrorKind::BadFileDescriptor(source_fd_num).into()
+                                );
+                            };
 
-                        params.open_files.set_fd(fd_num, target_file);
+                            params.open_files.set_fd(fd_num, target_file);
+
+                            // `N>&M-` moves M to N: it is M that gets closed.
+                            if dash {
+                                fd_to_close = Some(source_fd_num);
+                            }
+                        } else {
+                            fd_to_close = None;
+                        }
                     } else if fd_num == 1 && !dash {
                         // Special case for compatibility: redirect stdout and stderr to the file
                         // given by `expanded`.
@@ -1790,9 +1803,9 @@ pub(crate) async fn setup_redirect(
                         return Err(error::ErrorKind::InvalidRedirection.into());
                     }
 
-                    if dash {
-                        // Close the specified fd. Ignore it if it's not valid.
-                        params.open_files.remove_fd(fd_num);
+                    if let Some(fd_to_close) = fd_to_close {
+                        // Close the fd. Ignore it if it's not valid.
+                        params.open_files.remove_fd(fd_to_close);
                     }
                 }
 
